@@ -54,6 +54,8 @@ def _flatten(c):
             stack.append((e["r"], True))
         elif e.get("k") == "Unary" and e["op"] == "Not":
             stack.append((e["x"], not v))
+        elif e.get("k") == "Binary" and e["op"] == "Eq" and v and _some_true_cmp(e) is not None:
+            stack.append((_some_true_cmp(e), True))
         elif hir.is_call(e) and (hir.callee_name(e) or e.get("method")) in ("unwrap_or", "is_some_and", "map_or") and v:
             # opt.map(|x| P(x)).unwrap_or(false) / opt.is_some_and(|x| P(x)) / opt.map_or(false, |x| P(x))
             name = hir.callee_name(e) or e.get("method")
@@ -75,6 +77,18 @@ def _flatten(c):
         else:
             out.append((e, v))
     return out
+
+
+def _some_true_cmp(e):
+    """`opt.map(|x| P(x)) == Some(true)` -> the closure body P"""
+    sides = [hir.peel(e["l"]), hir.peel(e["r"])]
+    for a, b in (sides, sides[::-1]):
+        if a.get("k") == "Call" and (hir.peel(a["f"]).get("res", {}).get("ctor_path") or "").split("::")[-1] == "Some" and hir.lit_value(a["args"][0]) is True:
+            if hir.is_call(b) and (hir.callee_name(b) or b.get("method")) == "map":
+                cl = hir.peel(hir.call_args(b)[1])
+                if cl.get("k") == "Closure":
+                    return cl["body"]
+    return None
 
 
 def _classify(e, v, name_lit):
